@@ -244,8 +244,211 @@ struct MapRun {
     }
 };
 
-// MORE-CONTAINERS
-static void run_more(const std::string& id, const std::string& kind, const std::vector<long>& params, const std::vector<Op>& ops) {}
+// ------------------------------------------------------------------------------------------------
+// set (XalanMap<int,bool> inside; internals are private: public observables only)
+struct SetRun {
+    XalanSet<int>* x[2]; std::set<int> s[2]; std::vector<int> order[2]; int cur;
+    SetRun() : cur(0) { x[0] = new XalanSet<int>(MM()); x[1] = new XalanSet<int>(MM()); }
+    ~SetRun() { delete x[0]; delete x[1]; }
+    void run(const std::string& id, const std::vector<Op>& ops) {
+        std::string out, diff;
+        for (size_t k = 0; k < ops.size(); ++k) {
+            const Op& o = ops[k]; std::string rx = "-", rs = "-"; bool ok = true;
+            XalanSet<int>& m = *x[cur]; std::set<int>& w = s[cur]; std::vector<int>& ord = order[cur];
+            const int key = o.a.empty() ? 0 : (int) o.a[0];
+            if (o.name == "ins") { m.insert(key); if (w.insert(key).second) ord.push_back(key); }
+            else if (o.name == "er") { rx = num((long) m.erase(key)); long c = (long) w.erase(key); rs = num(c); if (c) ord.erase(std::find(ord.begin(), ord.end(), key)); }
+            else if (o.name == "find") { XalanSet<int>::const_iterator i = m.find(key); rx = i == m.end() ? "end" : num(*i); std::set<int>::iterator j = w.find(key); rs = j == w.end() ? "end" : num(*j); }
+            else if (o.name == "cnt") { rx = num((long) m.count(key)); rs = num((long) w.count(key)); }
+            else if (o.name == "clr") { m.clear(); w.clear(); ord.clear(); }
+            else if (o.name == "cpy") { delete x[1 - cur]; x[1 - cur] = new XalanSet<int>(m, MM()); s[1 - cur] = w; order[1 - cur] = ord; }
+            else if (o.name == "sel") { cur = o.a[0] ? 1 : 0; }
+            else ok = false;
+            if (k) out += "|";
+            if (!ok) { out += "!"; continue; }
+            std::vector<long> e; for (XalanSet<int>::const_iterator i = x[cur]->begin(); i != x[cur]->end(); ++i) e.push_back(*i);
+            std::string ox = rx + "/" + num((long) x[cur]->size()) + "/" + join(e.begin(), e.end());
+            std::string os = rs + "/" + num((long) s[cur].size()) + "/" + join(order[cur].begin(), order[cur].end());
+            if (diff.empty() && ox != os) diff = num((long) k) + " " + o.text + " xalan=" + ox + " std=" + os;
+            out += ox;
+        }
+        std::cout << id << ' ' << out << '\n' << id << ".o " << (diff.empty() ? "OK" : "DIFF " + diff) << '\n';
+    }
+};
+
+// ------------------------------------------------------------------------------------------------
+// list: node addresses are labelled in order of first appearance (nodes are recycled through the
+// per-list free chain, never returned to the allocator before destruction)
+struct ProbeList : public XalanList<int>
+{
+    ProbeList() : XalanList<int>(MM()) {}
+    long freeCount() const { long n = 0; for (Node* p = m_freeListHeadPtr; p != 0; p = p->next) ++n; return n; }
+};
+
+struct ListRun {
+    ProbeList* x[2]; std::list<long> s[2]; int cur;
+    std::map<const void*, long> label;
+    ListRun() : cur(0) { x[0] = new ProbeList; x[1] = new ProbeList; }
+    ~ListRun() { delete x[0]; delete x[1]; }
+    long lab(const void* p) { std::map<const void*, long>::iterator f = label.find(p); if (f != label.end()) return f->second; long n = (long) label.size(); label[p] = n; return n; }
+    static ProbeList::iterator at(ProbeList& l, long p) { ProbeList::iterator i = l.begin(); while (p-- > 0) ++i; return i; }
+    static std::list<long>::iterator at(std::list<long>& l, long p) { std::list<long>::iterator i = l.begin(); std::advance(i, p); return i; }
+    void run(const std::string& id, const std::vector<Op>& ops) {
+        std::string out, diff;
+        for (size_t k = 0; k < ops.size(); ++k) {
+            const Op& o = ops[k]; const Args& a = o.a; std::string rx = "-", rs = "-"; bool ok = true;
+            ProbeList& l = *x[cur]; std::list<long>& w = s[cur]; ProbeList& lo = *x[1 - cur]; std::list<long>& wo = s[1 - cur];
+            const long n = (long) w.size(), no = (long) wo.size();
+            if (o.name == "pb") { l.push_back((int) a[0]); w.push_back(a[0]); }
+            else if (o.name == "pf") { l.push_front((int) a[0]); w.push_front(a[0]); }
+            else if (o.name == "popb") { if (!n) ok = false; else { l.pop_back(); w.pop_back(); } }
+            else if (o.name == "popf") { if (!n) ok = false; else { l.pop_front(); w.pop_front(); } }
+            else if (o.name == "ins") { if (a[0] > n) ok = false; else { ProbeList::iterator r = l.insert(at(l, a[0]), (int) a[1]); rx = num(*r); rs = num(*w.insert(at(w, a[0]), a[1])); } }
+            else if (o.name == "er") { if (a[0] >= n) ok = false; else { l.erase(at(l, a[0])); w.erase(at(w, a[0])); } }
+            else if (o.name == "front") { if (!n) ok = false; else { rx = num(l.front()); rs = num(w.front()); } }
+            else if (o.name == "back") { if (!n) ok = false; else { rx = num(l.back()); rs = num(w.back()); } }
+            else if (o.name == "riter") { std::vector<long> e; for (ProbeList::reverse_iterator i = l.rbegin(); i != l.rend(); ++i) e.push_back(*i); rx = join(e.begin(), e.end()); rs = join(w.rbegin(), w.rend()); }
+            else if (o.name == "clr") { l.clear(); w.clear(); }
+            else if (o.name == "swap") { l.swap(lo); w.swap(wo); }
+            else if (o.name == "sel") { cur = a[0] ? 1 : 0; }
+            else if (o.name == "spl1") { if (a[0] > n || a[1] >= no) ok = false; else { l.splice(at(l, a[0]), lo, at(lo, a[1])); w.splice(at(w, a[0]), wo, at(wo, a[1])); } }
+            else if (o.name == "spln") { if (a[0] > n || !(a[1] <= a[2] && a[2] <= no)) ok = false; else { l.splice(at(l, a[0]), lo, at(lo, a[1]), at(lo, a[2])); w.splice(at(w, a[0]), wo, at(wo, a[1]), at(wo, a[2])); } }
+            else if (o.name == "splself") { if (a[0] > n || a[1] >= n) ok = false; else { l.splice(at(l, a[0]), l, at(l, a[1])); w.splice(at(w, a[0]), w, at(w, a[1])); } }
+            else ok = false;
+            if (k) out += "|";
+            if (!ok) { out += "!"; continue; }
+            ProbeList& c = *x[cur]; std::vector<long> e, labs;
+            for (ProbeList::iterator i = c.begin(); i != c.end(); ++i) { e.push_back(*i); labs.push_back(lab(&*i)); }
+            std::string ox = rx + "/" + num((long) c.size()) + (c.empty() ? "e" : "") + "/" + join(e.begin(), e.end());
+            std::string os = rs + "/" + num((long) s[cur].size()) + (s[cur].empty() ? "e" : "") + "/" + join(s[cur].begin(), s[cur].end());
+            if (diff.empty() && ox != os) diff = num((long) k) + " " + o.text + " xalan=" + ox + " std=" + os;
+            out += ox + "/" + join(labs.begin(), labs.end()) + "/" + num(c.freeCount());
+        }
+        std::cout << id << ' ' << out << '\n' << id << ".o " << (diff.empty() ? "OK" : "DIFF " + diff) << '\n';
+    }
+};
+
+// ------------------------------------------------------------------------------------------------
+// deque (block index and free block vector are private: public observables only)
+struct DequeRun {
+    typedef XalanDeque<int> XD;
+    XD* x[2]; std::deque<long> s[2]; size_t bs[2]; int cur;
+    DequeRun(const std::vector<long>& p) : cur(0) { for (int r = 0; r < 2; ++r) { bs[r] = (size_t) p[r]; x[r] = new XD(MM(), 0, bs[r]); } }
+    ~DequeRun() { delete x[0]; delete x[1]; }
+    void run(const std::string& id, const std::vector<Op>& ops) {
+        std::string out, diff;
+        for (size_t k = 0; k < ops.size(); ++k) {
+            const Op& o = ops[k]; const Args& a = o.a; std::string rx = "-", rs = "-"; bool ok = true;
+            XD& d = *x[cur]; std::deque<long>& w = s[cur]; const size_t n = w.size();
+            if (o.name == "pb") { d.push_back((int) a[0]); w.push_back(a[0]); }
+            else if (o.name == "pop") { if (!n) ok = false; else { d.pop_back(); w.pop_back(); } }
+            else if (o.name == "back") { if (!n) ok = false; else { rx = num(d.back()); rs = num(w.back()); } }
+            else if (o.name == "idx") { if ((size_t) a[0] >= n) ok = false; else { rx = num(d[(size_t) a[0]]); rs = num(w[(size_t) a[0]]); } }
+            else if (o.name == "setidx") { if ((size_t) a[0] >= n) ok = false; else { d[(size_t) a[0]] = (int) a[1]; w[(size_t) a[0]] = a[1]; } }
+            else if (o.name == "rsz") { d.resize((size_t) a[0]); w.resize((size_t) a[0]); }
+            else if (o.name == "clr") { d.clear(); w.clear(); }
+            else if (o.name == "iter") { const XD& cd = d; std::vector<long> e; for (XD::const_iterator i = cd.begin(); i != cd.end(); ++i) e.push_back(*i); rx = join(e.begin(), e.end()); rs = join(w.begin(), w.end()); }
+            else if (o.name == "riter") { const XD& cd = d; std::vector<long> e; for (XD::const_reverse_iterator i = cd.rbegin(); i != cd.rend(); ++i) e.push_back(*i); rx = join(e.begin(), e.end()); rs = join(w.rbegin(), w.rend()); }
+            else if (o.name == "cpy") { delete x[1 - cur]; x[1 - cur] = new XD(d, MM()); s[1 - cur] = w; bs[1 - cur] = bs[cur]; }
+            else if (o.name == "asg") { d = *x[1 - cur]; w = s[1 - cur]; }
+            else if (o.name == "selfasg") { d = *x[cur]; }
+            else if (o.name == "swap") { d.swap(*x[1 - cur]); w.swap(s[1 - cur]); }
+            else if (o.name == "sel") { cur = a[0] ? 1 : 0; }
+            else if (o.name == "new") { delete x[cur]; x[cur] = new XD(MM(), (size_t) a[0], bs[cur]); w.assign((size_t) a[0], 0); }
+            else ok = false;
+            if (k) out += "|";
+            if (!ok) { out += "!"; continue; }
+            XD& c = *x[cur]; std::vector<long> e; const size_t sz = c.size();
+            for (size_t i = 0; i < sz && i < 100000; ++i) e.push_back(c[i]);
+            std::string ox = rx + "/" + num((long) sz) + (c.empty() ? "e" : "") + "/" + join(e.begin(), e.end());
+            std::string os = rs + "/" + num((long) s[cur].size()) + (s[cur].empty() ? "e" : "") + "/" + join(s[cur].begin(), s[cur].end());
+            if (diff.empty() && ox != os) diff = num((long) k) + " " + o.text + " xalan=" + ox + " std=" + os;
+            out += ox;
+        }
+        std::cout << id << ' ' << out << '\n' << id << ".o " << (diff.empty() ? "OK" : "DIFF " + diff) << '\n';
+    }
+};
+
+// ------------------------------------------------------------------------------------------------
+// string
+struct StrRun {
+    XalanDOMString* x[2]; std::u16string s[2]; int cur;
+    StrRun() : cur(0) { x[0] = new XalanDOMString(MM()); x[1] = new XalanDOMString(MM()); }
+    ~StrRun() { delete x[0]; delete x[1]; }
+    static std::vector<XalanDOMChar> word(const Op& o) { std::vector<XalanDOMChar> w; for (size_t i = 0; i < o.list.size(); ++i) w.push_back((XalanDOMChar) o.list[i]); w.push_back(0); return w; }
+    static std::string show(const XalanDOMString& t) { std::vector<long> e; for (XalanDOMString::size_type i = 0; i < t.length() && i < 100000; ++i) e.push_back(t[i]); return join(e.begin(), e.end()); }
+    static std::string show(const std::u16string& t) { std::vector<long> e; for (size_t i = 0; i < t.size(); ++i) e.push_back(t[i]); return join(e.begin(), e.end()); }
+    static long sign(long v) { return v < 0 ? -1 : v > 0 ? 1 : 0; }
+    void run(const std::string& id, const std::vector<Op>& ops) {
+        std::string out, diff;
+        for (size_t k = 0; k < ops.size(); ++k) {
+            const Op& o = ops[k]; const Args& a = o.a; std::string rx = "-", rs = "-"; bool ok = true;
+            XalanDOMString& t = *x[cur]; std::u16string& w = s[cur]; XalanDOMString& to = *x[1 - cur]; std::u16string& wo = s[1 - cur];
+            const size_t n = w.size(), no = wo.size();
+            std::vector<XalanDOMChar> wd = word(o); const XalanDOMChar* wp = &wd[0]; const size_t wl = wd.size() - 1;
+            const std::u16string ws(wd.begin(), wd.end() - 1);
+            if (o.name == "app") { t.append(wp, (XalanDOMString::size_type) wl); w.append(ws); }
+            else if (o.name == "appz") { t.append(wp); w.append(ws); }
+            else if (o.name == "appn") { t.append((XalanDOMString::size_type) a[0], (XalanDOMChar) a[1]); w.append((size_t) a[0], (char16_t) a[1]); }
+            else if (o.name == "pb") { t.push_back((XalanDOMChar) a[0]); w.push_back((char16_t) a[0]); }
+            else if (o.name == "ins") { if ((size_t) a[0] > n) ok = false; else { t.insert((XalanDOMString::size_type) a[0], wp, (XalanDOMString::size_type) wl); w.insert((size_t) a[0], ws); } }
+            else if (o.name == "insn") { if ((size_t) a[0] > n) ok = false; else { t.insert((XalanDOMString::size_type) a[0], (XalanDOMString::size_type) a[1], (XalanDOMChar) a[2]); w.insert((size_t) a[0], (size_t) a[1], (char16_t) a[2]); } }
+            else if (o.name == "insit") { if ((size_t) a[0] > n) ok = false; else { XalanDOMString::iterator r = t.insert(t.begin() + a[0], (XalanDOMChar) a[1]); rx = num(r - t.begin()); std::u16string::iterator q = w.insert(w.begin() + a[0], (char16_t) a[1]); rs = num(q - w.begin()); } }
+            else if (o.name == "insitn") { if ((size_t) a[0] > n) ok = false; else { t.insert(t.begin() + a[0], (XalanDOMString::size_type) a[1], (XalanDOMChar) a[2]); w.insert(w.begin() + a[0], (size_t) a[1], (char16_t) a[2]); } }
+            else if (o.name == "inso") { if ((size_t) a[0] > n) ok = false; else { t.insert((XalanDOMString::size_type) a[0], to); w.insert((size_t) a[0], wo); } }
+            else if (o.name == "er") { if ((size_t) (a[0] + a[1]) > n) ok = false; else { t.erase((XalanDOMString::size_type) a[0], (XalanDOMString::size_type) a[1]); w.erase((size_t) a[0], (size_t) a[1]); } }
+            else if (o.name == "ernpos") { if ((size_t) a[0] > n) ok = false; else { t.erase((XalanDOMString::size_type) a[0]); w.erase((size_t) a[0]); } }
+            else if (o.name == "erit") { if (!(a[0] <= a[1] && (size_t) a[1] <= n) || n == 0) ok = false; else { XalanDOMString::iterator r = t.erase(t.begin() + a[0], t.begin() + a[1]); rx = num(r - t.begin()); std::u16string::iterator q = w.erase(w.begin() + a[0], w.begin() + a[1]); rs = num(q - w.begin()); } }
+            else if (o.name == "eritempty") { if (n != 0) ok = false; else { t.erase(t.begin(), t.end()); w.erase(w.begin(), w.end()); } }
+            else if (o.name == "erit1") { if ((size_t) a[0] >= n) ok = false; else { XalanDOMString::iterator r = t.erase(t.begin() + a[0]); rx = num(r - t.begin()); std::u16string::iterator q = w.erase(w.begin() + a[0]); rs = num(q - w.begin()); } }
+            else if (o.name == "rsz") { t.resize((XalanDOMString::size_type) a[0], (XalanDOMChar) a[1]); w.resize((size_t) a[0], (char16_t) a[1]); }
+            else if (o.name == "rsz0") { t.resize((XalanDOMString::size_type) a[0]); w.resize((size_t) a[0]); }
+            else if (o.name == "rsv") { t.reserve((XalanDOMString::size_type) a[0]); w.reserve((size_t) a[0]); }
+            else if (o.name == "clr") { t.clear(); w.clear(); }
+            else if (o.name == "asgw") { t.assign(wp, (XalanDOMString::size_type) wl); w.assign(ws); }
+            else if (o.name == "asgn") { t.assign((XalanDOMString::size_type) a[0], (XalanDOMChar) a[1]); w.assign((size_t) a[0], (char16_t) a[1]); }
+            else if (o.name == "asgit") { if (!(a[0] <= a[1] && (size_t) a[1] <= no)) ok = false; else { t.assign(to.begin() + a[0], to.begin() + a[1]); w.assign(wo.begin() + a[0], wo.begin() + a[1]); } }
+            else if (o.name == "substr") { if (!((size_t) a[0] < n && (size_t) (a[0] + a[1]) <= n)) ok = false; else { XalanDOMString tmp(MM()); t.substr(tmp, (XalanDOMString::size_type) a[0], (XalanDOMString::size_type) a[1]); rx = show(tmp); rs = show(w.substr((size_t) a[0], (size_t) a[1])); } }
+            else if (o.name == "substrnpos") { if (!((size_t) a[0] < n)) ok = false; else { XalanDOMString tmp(MM()); t.substr(tmp, (XalanDOMString::size_type) a[0]); rx = show(tmp); rs = show(w.substr((size_t) a[0])); } }
+            else if (o.name == "selfsub") { if (!((size_t) a[0] < n && (size_t) (a[0] + a[1]) <= n)) ok = false; else { t.assign(t, (XalanDOMString::size_type) a[0], (XalanDOMString::size_type) a[1]); w.assign(std::u16string(w), (size_t) a[0], (size_t) a[1]); } }
+            else if (o.name == "asgsub") { if (!((size_t) a[0] < no && (size_t) (a[0] + a[1]) <= no)) ok = false; else { t.assign(to, (XalanDOMString::size_type) a[0], (XalanDOMString::size_type) a[1]); w.assign(wo, (size_t) a[0], (size_t) a[1]); } }
+            else if (o.name == "appsub") { if (!((size_t) a[0] < no && (size_t) (a[0] + a[1]) <= no)) ok = false; else { t.append(to, (XalanDOMString::size_type) a[0], (XalanDOMString::size_type) a[1]); w.append(wo, (size_t) a[0], (size_t) a[1]); } }
+            else if (o.name == "appsubnpos") { if (!((size_t) a[0] < no)) ok = false; else { t.append(to, (XalanDOMString::size_type) a[0], XalanDOMString::npos); w.append(wo, (size_t) a[0], std::u16string::npos); } }
+            else if (o.name == "appo") { t.append(to); w.append(wo); }
+            else if (o.name == "cmp") { rx = num(sign(t.compare(to))); rs = num(sign(w.compare(wo))); }
+            else if (o.name == "cmpw") { rx = num(sign(t.compare(wp))); rs = num(sign(w.compare(ws))); }
+            else if (o.name == "eq") { rx = num(XalanDOMString::equals(t, to) ? 1 : 0); rs = num(w == wo ? 1 : 0); }
+            else if (o.name == "idx") { if ((size_t) a[0] >= n) ok = false; else { rx = num(t[(XalanDOMString::size_type) a[0]]); rs = num(w[(size_t) a[0]]); } }
+            else if (o.name == "cstr") { const XalanDOMChar* p = t.c_str(); std::vector<long> e; size_t i = 0; for (; p[i] != 0 && i < 100000; ++i) e.push_back(p[i]); rx = join(e.begin(), e.end()); rs = show(std::u16string(w.c_str())); }
+            else if (o.name == "riter") { std::vector<long> e; for (XalanDOMString::reverse_iterator i = t.rbegin(); i != t.rend(); ++i) e.push_back(*i); rx = join(e.begin(), e.end()); std::vector<long> f(w.rbegin(), w.rend()); rs = join(f.begin(), f.end()); }
+            else if (o.name == "cpy") { delete x[1 - cur]; x[1 - cur] = new XalanDOMString(t, MM()); s[1 - cur] = w; }
+            else if (o.name == "cpysub") { if (!((size_t) a[0] < n && (size_t) (a[0] + a[1]) <= n)) ok = false; else { delete x[1 - cur]; x[1 - cur] = new XalanDOMString(t, MM(), (XalanDOMString::size_type) a[0], (XalanDOMString::size_type) a[1]); s[1 - cur] = std::u16string(w, (size_t) a[0], (size_t) a[1]); } }
+            else if (o.name == "asg") { t = to; w = wo; }
+            else if (o.name == "selfasg") { t = *x[cur]; }
+            else if (o.name == "swap") { t.swap(to); w.swap(wo); }
+            else if (o.name == "sel") { cur = a[0] ? 1 : 0; }
+            else if (o.name == "newn") { delete x[cur]; x[cur] = new XalanDOMString((XalanDOMString::size_type) a[0], (XalanDOMChar) a[1], MM()); w.assign((size_t) a[0], (char16_t) a[1]); }
+            else ok = false;
+            if (k) out += "|";
+            if (!ok) { out += "!"; continue; }
+            XalanDOMString& c = *x[cur];
+            const bool term = c.length() < 100000 && c.c_str()[c.length()] == 0;
+            std::string ox = rx + "/" + num((long) c.length()) + (c.empty() ? "e" : "") + "/" + show(c) + "/" + (term ? "z" : "N");
+            std::string os = rs + "/" + num((long) s[cur].size()) + (s[cur].empty() ? "e" : "") + "/" + show(s[cur]) + "/z";
+            if (diff.empty() && ox != os) diff = num((long) k) + " " + o.text + " xalan=" + ox + " std=" + os;
+            out += ox + "/" + num((long) c.capacity());
+        }
+        std::cout << id << ' ' << out << '\n' << id << ".o " << (diff.empty() ? "OK" : "DIFF " + diff) << '\n';
+    }
+};
+
+static void run_more(const std::string& id, const std::string& kind, const std::vector<long>& params, const std::vector<Op>& ops)
+{
+    if (kind == "st") { SetRun r; r.run(id, ops); }
+    else if (kind == "l") { ListRun r; r.run(id, ops); }
+    else if (kind == "d") { if (params.size() < 2 || params[0] < 1 || params[1] < 1) return; DequeRun r(params); r.run(id, ops); }
+    else if (kind == "s") { StrRun r; r.run(id, ops); }
+}
 
 int main(int argc, char** argv)
 {
